@@ -39,6 +39,8 @@ pub struct Opts {
     pub check_legality: bool,
     /// run the model after a write/read cycle through the binary format (C05)
     pub via_binary_roundtrip: bool,
+    /// not an exploration: a named scripted scenario handled by the engine binary
+    pub scenario: Option<String>,
 }
 
 impl Default for Opts {
@@ -55,6 +57,7 @@ impl Default for Opts {
             use_reference: true,
             check_legality: false,
             via_binary_roundtrip: false,
+            scenario: None,
         }
     }
 }
